@@ -62,6 +62,25 @@ class _Normaliser(ast.NodeTransformer):
             right = inner.test.values if isinstance(inner.test, ast.BoolOp) and isinstance(inner.test.op, ast.And) else [inner.test]
             n.test = ast.copy_location(ast.BoolOp(op=ast.And(), values=[*left, *right]), n.test)
             n.body = inner.body
+        # `if c: T = A` / `else: T = B` (nothing else in either arm) is `T = A if c else B`
+        if (
+            len(n.body) == 1
+            and len(n.orelse) == 1
+            and all(isinstance(a, ast.Assign) and len(a.targets) == 1 and isinstance(a.targets[0], ast.Name) for a in (n.body[0], n.orelse[0]))
+            and n.body[0].targets[0].id == n.orelse[0].targets[0].id
+        ):
+            new = ast.Assign(targets=n.body[0].targets, value=ast.IfExp(test=n.test, body=n.body[0].value, orelse=n.orelse[0].value))
+            ast.copy_location(new, n)
+            ast.copy_location(new.value, n)
+            return new
+        return n
+
+    def visit_Call(self, n):
+        """reduce(lambda a, b: a OP b, ..) is reduce(operator.__OP__, ..); other two-parameter folding lambdas get
+        canonical parameter names"""
+        self.generic_visit(n)
+        if dotted(n.func) in ("reduce", "functools.reduce") and n.args and isinstance(n.args[0], ast.Lambda):
+            n.args[0] = _canonical_fold(n.args[0])
         return n
 
     def visit_IfExp(self, n):
@@ -69,6 +88,62 @@ class _Normaliser(ast.NodeTransformer):
         if isinstance(n.test, ast.UnaryOp) and isinstance(n.test.op, ast.Not):
             n.test, n.body, n.orelse = n.test.operand, n.orelse, n.body
         return n
+
+    def visit_BoolOp(self, n):
+        """`x == 'a' or x == 'b'` is `x in ('a', 'b')` and `x != 'a' and x != 'b'` is `x not in ('a', 'b')` when x is
+        a plain access path and the other sides are string / integer literals (no overloaded equality involved)"""
+        self.generic_visit(n)
+        eq, member, joined = (ast.Eq, ast.In, ast.In()) if isinstance(n.op, ast.Or) else (ast.NotEq, ast.NotIn, ast.NotIn())
+        left, consts = None, []
+        for v in n.values:
+            if not (isinstance(v, ast.Compare) and len(v.ops) == 1 and dotted(v.left)):
+                return n
+            if left is not None and ast.dump(v.left) != ast.dump(left):
+                return n
+            c = v.comparators[0]
+            if isinstance(v.ops[0], eq) and isinstance(c, ast.Constant) and type(c.value) in (str, int):
+                consts.append(c)
+            elif isinstance(v.ops[0], member) and isinstance(c, (ast.Tuple, ast.List, ast.Set)) and all(isinstance(e, ast.Constant) and type(e.value) in (str, int) for e in c.elts):
+                consts += list(c.elts)
+            else:
+                return n
+            left = v.left
+        if left is None or len(consts) < 2:
+            return n
+        return ast.copy_location(ast.Compare(left=left, ops=[joined], comparators=[ast.copy_location(ast.Tuple(elts=consts, ctx=ast.Load()), n)]), n)
+
+
+_FOLD_OPS = {ast.Add: "__add__", ast.Sub: "__sub__", ast.Mult: "__mul__", ast.BitAnd: "__and__", ast.BitOr: "__or__", ast.BitXor: "__xor__"}
+
+
+def _canonical_fold(lam):
+    """a two-parameter lambda used as a folding function, in canonical form"""
+    a = lam.args
+    if len(a.args) != 2 or a.vararg or a.kwarg or a.kwonlyargs or a.defaults or a.posonlyargs:
+        return lam
+    pa, pb = a.args[0].arg, a.args[1].arg
+    b = lam.body
+    if isinstance(b, ast.BinOp) and type(b.op) in _FOLD_OPS and isinstance(b.left, ast.Name) and isinstance(b.right, ast.Name) and (b.left.id, b.right.id) == (pa, pb):
+        return ast.copy_location(ast.Attribute(value=ast.Name(id="operator", ctx=ast.Load()), attr=_FOLD_OPS[type(b.op)], ctx=ast.Load()), lam)
+    used = {x.id for x in ast.walk(b) if isinstance(x, ast.Name)}
+    if {"_acc", "_x"} & (used - {pa, pb}):
+        return lam
+
+    class Rn(ast.NodeTransformer):
+        def visit_Name(self, x):
+            if x.id == pa:
+                return ast.copy_location(ast.Name(id="_acc", ctx=x.ctx), x)
+            if x.id == pb:
+                return ast.copy_location(ast.Name(id="_x", ctx=x.ctx), x)
+            return x
+
+        def visit_Lambda(self, x):
+            return x
+
+    new = ast.Lambda(args=ast.arguments(posonlyargs=[], args=[ast.arg(arg="_acc"), ast.arg(arg="_x")], kwonlyargs=[], kw_defaults=[], defaults=[]), body=Rn().visit(b))
+    ast.copy_location(new, lam)
+    ast.fix_missing_locations(new)
+    return new
 
 
 def _mentions(node, name):
@@ -150,6 +225,51 @@ def _rewrite_block(stmts):
             ast.fix_missing_locations(new)
             stmts = [*stmts[:i], new, *stmts[i + 2 :]]
             continue  # re-examine: several guard clauses in a row fold into one expression
+        # `return A if c else B` is `if c: return A` / `else: return B` (rules read returns under their guards)
+        if isinstance(st, ast.Return) and isinstance(st.value, ast.IfExp):
+            def split(v, like):
+                if isinstance(v, ast.IfExp):
+                    node = ast.If(test=v.test, body=split(v.body, like), orelse=split(v.orelse, like))
+                else:
+                    node = ast.Return(value=v)
+                ast.copy_location(node, like)
+                return [node]
+
+            new = split(st.value, st)[0]
+            ast.fix_missing_locations(new)
+            out.append(new)
+            i += 1
+            continue
+        # folding loop: `ACC = INIT` + `for X in IT: ACC = F(ACC, X)`  ==  `ACC = reduce(lambda ACC, X: F(ACC, X), IT, INIT)`
+        if (
+            isinstance(st, ast.Assign)
+            and len(st.targets) == 1
+            and isinstance(st.targets[0], ast.Name)
+            and isinstance(nxt, ast.For)
+            and not nxt.orelse
+            and isinstance(nxt.target, ast.Name)
+            and len(nxt.body) == 1
+            and isinstance(nxt.body[0], ast.Assign)
+            and len(nxt.body[0].targets) == 1
+            and isinstance(nxt.body[0].targets[0], ast.Name)
+            and nxt.body[0].targets[0].id == st.targets[0].id
+            and _mentions(nxt.body[0].value, st.targets[0].id)
+            and _mentions(nxt.body[0].value, nxt.target.id)
+            and not _mentions(nxt.iter, st.targets[0].id)
+            and not any(_mentions(later, nxt.target.id) for later in stmts[i + 2 :])
+            and not any(isinstance(x, (ast.Yield, ast.YieldFrom, ast.Await, ast.NamedExpr, ast.Lambda)) for x in ast.walk(nxt.body[0].value))
+        ):
+            lam = ast.Lambda(
+                args=ast.arguments(posonlyargs=[], args=[ast.arg(arg=st.targets[0].id), ast.arg(arg=nxt.target.id)], kwonlyargs=[], kw_defaults=[], defaults=[]),
+                body=nxt.body[0].value,
+            )
+            call = ast.Call(func=ast.Name(id="reduce", ctx=ast.Load()), args=[_canonical_fold(lam), nxt.iter, st.value], keywords=[])
+            new = ast.Assign(targets=st.targets, value=call)
+            ast.copy_location(new, st)
+            ast.fix_missing_locations(new)
+            out.append(new)
+            i += 2
+            continue
         # accumulate-by-append loop
         if (
             isinstance(st, ast.Assign)
